@@ -1,14 +1,50 @@
 """C19 — see DESIGN.md section 4 ("the repository model") and lean/XvcRepo/XvcRepo/Props/C19.lean.
 Proof: Lean theorems about the executable repository model.  Tie: the model driver is compared with the rebuilt xvc
 binary after every command of generated histories.  Oracle: model-independent, lib/repo_check.py."""
+import random
 import repo_check as rc
+from repo_check import W, T, CI, RC
 
 ORACLES = [rc.o7_copy_move]
 RESTORE = None
 
 
+def chain_histories(seed, n):
+    """Copies of copies and moves of copies: everything `copy`/`move` must carry over from the source (digest, method,
+    text/binary mode, metadata) is needed again when the destination becomes a source.  Sources are committed with an
+    explicit text/binary mode that differs from auto-detection, with every method, present / absent / re-checked."""
+    rng = random.Random(f'c19-chains-{seed}')
+    out = []
+    for i in range(n):
+        e = rng.choice(['txt', 'bin', ''])
+        nm = lambda s: s + ('.' + e if e else '')
+        names = [nm('f0'), nm('d/f1'), nm('f2'), nm('d/e/f3'), nm('f4')]
+        text = rng.random() < 0.7
+        body = (bytes(f'line one {i}\nline two\r\nline three\n', 'ascii') if text else bytes(f'bin{i}', 'ascii') + b'\x00\x01\n\xff')
+        tob = rng.choice(['binary', 'text', 'auto', None])
+        cfg = {'algo': rng.choice([0, 0, 1, 2, 3]), 'method': rng.choice(['copy', 'copy', 'symlink', 'reflink']), 'tob': 'auto'}
+        h = [W(names[0], body), T([names[0]], tob=tob, method=rng.choice([None, None, 'symlink', 'copy']))]
+        cur = names[0]
+        for k in range(1, rng.randint(3, 5)):
+            op = rng.choice(['copy', 'copy', 'move'])
+            m = rng.choice([None, None, 'copy', 'symlink'])
+            if rng.random() < 0.2:
+                h.append({'op': 'delete', 'path': cur})                      # the source content is not in the workspace
+            if op == 'copy':
+                h.append({'op': 'copy', 'src': cur, 'dst': names[k], 'method': m, 'no_recheck': rng.random() < 0.15})
+            else:
+                h.append({'op': 'move', 'src': cur, 'dst': names[k], 'method': m})
+            if rng.random() < 0.3:
+                h.append(RC([names[k]], force=rng.random() < 0.5))
+            cur = names[k]
+        h.append(RC([cur], method='copy', force=True))
+        out.append((f'chain-{i}', cfg, h))
+    return out
+
+
 def run(chk):
-    return rc.run_property(chk, 'C19', ORACLES, restore=RESTORE)
+    n = 30 if chk.tier == 'quick' else 300
+    return rc.run_property(chk, 'C19', ORACLES, restore=RESTORE, nq=250, extra_corpus=chain_histories(chk.seed, n))
 
 
 def replay(chk, data):
